@@ -5,8 +5,9 @@
 (*                                                                         *)
 (* A configuration c is a record of integers (real length = integer / S):  *)
 (*   d, S      dimension, length scale                                     *)
-(*   H, org    cell (rows = cell vectors, LAMMPS lower-triangular) and its *)
-(*             origin (lower corner); ppp the periodicity mask             *)
+(*   H, org    cell (rows = cell vectors; LAMMPS lower-triangular or an    *)
+(*             axis permutation P H P^T of such a cell) and its origin     *)
+(*             (lower corner); ppp the periodicity mask                    *)
 (*   types     species ids 1..K (every id present)                         *)
 (*   frames    frames[f][i] = position of particle i in frame f            *)
 (*   nb        nb[f][i] = GIVEN neighbour list of particle i in frame f    *)
@@ -36,13 +37,20 @@
 (*  axes    p              new coordinate k = old coordinate p[k], applied *)
 (*                         to positions, origin, mask, field, wave vectors *)
 (*                         AND to the cell, H'[i][j] = H[p[i]][p[j]] (cell *)
-(*                         vectors renumbered with the axes).  A lower-    *)
-(*                         triangular triclinic cell is in general NOT     *)
-(*                         lower-triangular afterwards: the generator is   *)
-(*                         applicable only when H' is lower-triangular     *)
-(*                         again (every orthogonal cell; a triclinic cell  *)
-(*                         only for the permutations that keep its zero    *)
-(*                         pattern, e.g. yz-tilt only with p = <<2,3,1>>)  *)
+(*                         vectors renumbered with the axes: H' = P H P^T).*)
+(*                         EVERY permutation of EVERY cell is admitted.  A *)
+(*                         lower-triangular triclinic cell is in general   *)
+(*                         not lower-triangular afterwards (a "permuted    *)
+(*                         LAMMPS cell": the same lattice, the same edge   *)
+(*                         lengths on the diagonal in permuted order, the  *)
+(*                         same volume = product of the diagonal); every   *)
+(*                         pairwise routine takes the h-matrix as given    *)
+(*                         (fractional coordinates by Adj / Det, module    *)
+(*                         Cell), so the property's "permuting coordinate  *)
+(*                         axes together with the box" holds without any   *)
+(*                         restriction on the cell.  If two edges are      *)
+(*                         equal and are exchanged, cell and permuted cell *)
+(*                         have the SAME diagonal and different tilts.     *)
 (*  rot     q              open boundaries only (mask all 0, orthogonal    *)
 (*                         box).  2-D: q = <<a, b>>, a^2 + b^2 = m^2       *)
 (*                         (Pythagorean), z -> (a + ib) z; 3-D: integer    *)
@@ -127,7 +135,12 @@ InCell(c, v) ==
 PermVec(p, v)  == [k \in 1..Len(p) |-> v[p[k]]]
 PermCell(p, H) == [i \in 1..Len(p) |-> [j \in 1..Len(p) |-> H[p[i]][p[j]]]]
 PermMat(p)     == [a \in 1..Len(p) |-> [b \in 1..Len(p) |-> IF b = p[a] THEN 1 ELSE 0]]    \* (P v)_a = v_{p[a]}
-AxesOK(g, c)   == IsPerm(g.p, c.d) /\ IsLowerTri(PermCell(g.p, c.H))
+AxesOK(g, c)   == IsPerm(g.p, c.d)
+\* the cells of the scope: a LAMMPS (lower-triangular, positive diagonal) cell with its axes renumbered
+AllPerms(d)    == {p \in [1..d -> 1..d] : Range(p) = 1..d}
+IsPermutedLAMMPS(H) ==
+  /\ \A k \in 1..Len(H) : H[k][k] > 0
+  /\ \E p \in AllPerms(Len(H)) : IsLowerTri(PermCell(p, H))
 
 \* ---- rational rotations ---------------------------------------------------------
 Rot2(q) == << <<q[1], 0 - q[2]>>, <<q[2], q[1]>> >>
@@ -471,7 +484,7 @@ TablesEquivariant(c, st) ==
 
 \* ---- the transformed configuration is again a legal input -----------------------------------------
 WellFormed(c) ==
-  /\ IsLowerTri(c.H) /\ \A k \in 1..c.d : c.H[k][k] > 0
+  /\ IsPermutedLAMMPS(c.H)
   /\ Range(c.types) = 1..NSpecies(c)
   /\ \A f \in 1..Len(c.nb) : \A i \in 1..NPart(c) : \A k \in 1..Len(c.nb[f][i]) :
        c.nb[f][i][k] \in (1..NPart(c)) \ {i}
@@ -480,6 +493,20 @@ ActionWellFormed(c, st) ==
   /\ IsSimilarity(st)
   /\ st.rotated => AllZero(c.ppp)
   /\ st.c.ppp = PermVec(st.ax, c.ppp)
+
+\* ---- the cell itself: renumbered with the axes and scaled with the lengths; a permuted LAMMPS cell keeps its
+\* edge lengths on the diagonal (in permuted order) and its volume is still the product of the diagonal, which is
+\* what the library reads as `boxlength` (bin range L_min / 2, normalising volume)
+DiagOf(H)  == [k \in 1..Len(H) |-> H[k][k]]
+CellEquivariant(c, st) ==
+  LET m == st.c.wn \div c.wn IN
+  /\ st.c.H = MScale(m, PermCell(st.ax, c.H))
+  /\ DiagOf(st.c.H) = VScale(m, PermVec(st.ax, DiagOf(c.H)))
+  /\ Abs(Det(c.H)) = ProdSeq(DiagOf(c.H)) /\ Abs(Det(st.c.H)) = ProdSeq(DiagOf(st.c.H))
+\* the word exchanges the axes of a tilted cell: cell and image differ although their edge lengths agree as sets
+\* (and agree as sequences when equal edges are exchanged)
+TiltedAxesWord(c, st) == ~IsDiagonal(c.H) /\ st.c.H # MScale(st.c.wn \div c.wn, c.H)
+SameDiagOtherCell(c, st) == TiltedAxesWord(c, st) /\ DiagOf(st.c.H) = VScale(st.c.wn \div c.wn, DiagOf(c.H))
 
 (***************************************************************************)
 (* Which observable is expected to respect which word, and how.            *)
@@ -517,4 +544,40 @@ Respects(ob, sh, st) ==
           [] ob = "pr"      -> TRUE
   IN  st.ok /\ base
 ObsOf(c, st) == SelectSeq(ObsNames, LAMBDA ob : Respects(ob, Shape(c), st))
+
+(***************************************************************************)
+(* Degrees of the 3-D bond-order observables.  The Gram matrices of the    *)
+(* bond stars are invariant (GramInvariant), hence q_l, Q_l, w_l, w-hat_l  *)
+(* of EVERY degree l are (addition theorem).  The library evaluates the    *)
+(* harmonics with one tabulated routine per degree l = 1..10 and a general *)
+(* branch for l > 10, so the degree is part of the scope:                  *)
+(*   big inputs (N > 40)            l = 6 only (cost)                      *)
+(*   small inputs                   l = 4, 6 with q, Q, w, w-hat, W-hat;   *)
+(*     words whose linear map is not a multiple of the identity (axis      *)
+(*     permutations, rotations: the only ones that move bond DIRECTIONS)   *)
+(*     in addition l = 12 (general branch; q, Q, w, w-hat) and one more    *)
+(*     degree (q, Q only) that rotates through the remaining tabulated     *)
+(*     degrees and the odd degrees 11, 13 of the general branch            *)
+(* Entries <<l, kind>>: kind 2 = q Q w w-hat W-hat, 1 = q Q w w-hat, 0 = q Q *)
+(***************************************************************************)
+ScalarLin(st) == \A a, b \in 1..Len(st.lin) : a # b => st.lin[a][b] = 0
+ExtraDegrees  == <<1, 2, 3, 5, 7, 8, 9, 10, 11, 13>>
+BooDegrees(n, st, key) ==
+  IF n > 40 THEN << <<6, 2>> >>
+  ELSE IF ScalarLin(st) THEN << <<4, 2>>, <<6, 2>> >>
+  ELSE << <<4, 2>>, <<6, 2>>, <<12, 1>>, <<ExtraDegrees[(key % Len(ExtraDegrees)) + 1], 0>> >>
+
+(***************************************************************************)
+(* Evaluation schedule.  The property speaks about configurations, not     *)
+(* about processes: the relation must hold whichever configurations the    *)
+(* same process has analysed before (a user script loops over many), so    *)
+(* base ("b") and transformed ("t") configuration are evaluated in ONE     *)
+(* process, writing to the SAME output file names, in the order given      *)
+(* here; every "t" result is compared with every "b" result.  Words that   *)
+(* renumber the axes of a periodic cell are evaluated in both orders       *)
+(* (small inputs, and every tilted cell: there the two cells share their   *)
+(* edge lengths but not their tilts).                                      *)
+(***************************************************************************)
+Schedule(sh, st) ==
+  IF st.ax # IdPerm(sh.d) /\ ~AllZero(sh.ppp) /\ (~sh.diag \/ sh.n <= 40) THEN <<"b", "t", "b">> ELSE <<"b", "t">>
 =============================================================================
